@@ -604,13 +604,16 @@ impl IoLoop {
     // for our CloseOk. Once its Close has been seen, the socket ending (EOF, a reset, a
     // failing write) is the expected sequel, not a new failure: what cannot be written any
     // more is dropped, which ends the loop, and the server's close stays the reason.
+    // The same goes for a connection we are closing ourselves because of a client
+    // exception: the exception is what happened, whatever becomes of the socket after it.
     fn socket_failed_behind_server_close(
         &mut self,
         state: &ConnectionState,
         result: &Result<()>,
     ) -> bool {
         match (state, result) {
-            (ConnectionState::ServerClosing(_), Err(_)) => {
+            (ConnectionState::ServerClosing(_), Err(_))
+            | (ConnectionState::ClientException, Err(_)) => {
                 self.inner.outbuf.clear();
                 true
             }
